@@ -194,6 +194,7 @@ func (f *Func) Invoke(ctx context.Context, arg interface{}) (interface{}, error)
 		close(bg.maxSizeCh)
 		delete(bctx.pendingBatchGroups, fs)
 	}
+	vh("invoke.joined", bg, index, existed, len(bg.args), bctx.pendingBatchGroups[fs] == bg)
 	bctx.mu.Unlock()
 
 	// Run the batchGroup if we created it. Otherwise, wait for the batchGroup to
@@ -206,6 +207,7 @@ func (f *Func) Invoke(ctx context.Context, arg interface{}) (interface{}, error)
 		case <-timer.C: // Resolve after a timeout to bound latency.
 		case <-bg.maxSizeCh: // Resolve if we hit max batch size.
 		}
+		vh("leader.woke", bg)
 
 		// Before we try and resolve, make sure noone will add to the group by
 		// deleting it from the pending groups.
@@ -215,6 +217,7 @@ func (f *Func) Invoke(ctx context.Context, arg interface{}) (interface{}, error)
 		if bctx.pendingBatchGroups[fs] == bg {
 			delete(bctx.pendingBatchGroups, fs)
 		}
+		vh("leader.removed", bg)
 		bctx.mu.Unlock()
 
 		// Check for the context being canceled.
@@ -224,6 +227,7 @@ func (f *Func) Invoke(ctx context.Context, arg interface{}) (interface{}, error)
 			bg.err = ctx.Err()
 		}
 		// Make the result available.
+		vh("leader.done", bg, bg.err)
 		close(bg.doneCh)
 
 	} else {
